@@ -647,3 +647,50 @@ func (r *Run) ExpectDecodedField(fn *ssa.Function, keyInto, keyField string, bas
 	}
 	r.Fail(keyInto, r.Where(um), fmt.Sprintf("arg %d of %s = %s (expected a local %s, or the %s field of the result)", argi, CalleeOf(um), got, typ, field))
 }
+
+// nonNilAt: the error-typed value v is non-nil whenever block `at` executes — it is non-nil by
+// construction (errKind "non"), or `at` is dominated by the edge of a branch that tested this very
+// SSA value against nil and found it non-nil (`if v != nil {…at…}` / `if v == nil {…} else {…at…}`).
+// This is what a helper that returns a value together with an error leaves behind when inlined:
+// `return nil, φ(e|nil)` inside `if φ != nil`.
+func nonNilAt(v ssa.Value, at *ssa.BasicBlock) bool {
+	if errKind(v) == "non" {
+		return true
+	}
+	if at == nil {
+		return false
+	}
+	fn := at.Parent()
+	for _, b := range fn.Blocks {
+		if len(b.Instrs) == 0 || len(b.Succs) != 2 {
+			continue
+		}
+		ifi, ok := b.Instrs[len(b.Instrs)-1].(*ssa.If)
+		if !ok {
+			continue
+		}
+		cond, neg := ifi.Cond, false
+		for {
+			u, ok := cond.(*ssa.UnOp)
+			if !ok || u.Op != token.NOT {
+				break
+			}
+			cond, neg = u.X, !neg
+		}
+		bo, ok := cond.(*ssa.BinOp)
+		if !ok || (bo.Op != token.NEQ && bo.Op != token.EQL) {
+			continue
+		}
+		if !((bo.X == v && isNilConst(bo.Y)) || (bo.Y == v && isNilConst(bo.X))) {
+			continue
+		}
+		k := 0 // successor taken when v is non-nil
+		if (bo.Op == token.EQL) != neg {
+			k = 1
+		}
+		if edgeDominates(b, k, at) {
+			return true
+		}
+	}
+	return false
+}
